@@ -272,7 +272,8 @@ def c20_cases(tier):
 
     def headers():
         flags = ["--header", "X-Tag: one", "--header", "  X-Other :  z y  ", "--header", "X-Tag: two", "--header", "X-Colon: a:b", "--authorization", "tok123",
-                 "--header", "Cache-Control: no-cache, no-store", "--header", "X-Route: eu, fallback:us"]
+                 "--header", "Cache-Control: no-cache, no-store", "--header", "X-Route: eu, fallback:us",
+                 "--header", "X-Signature:  t=1712  v1=52  57 ", "--header", "X-Fields: id\tname"]
         res, seen, out = run("ok", flags)
         if res["exit"] != 0 or len(seen) != 1:
             return "introspect-schema with headers: exit %s, %d requests: %s" % (res["exit"], len(seen), res["stderr"][-160:])
@@ -286,6 +287,8 @@ def c20_cases(tier):
             return "header `X-Colon: a:b` (split at the FIRST colon) reaches the server as %s" % vals("x-colon")
         if vals("cache-control") != ["no-cache, no-store"] or vals("x-route") != ["eu, fallback:us"] or vals("fallback"):
             return "a header value containing commas is not carried as ONE pair split at the first colon: cache-control %s, x-route %s, fallback %s" % (vals("cache-control"), vals("x-route"), vals("fallback"))
+        if vals("x-signature") != ["t=1712  v1=52  57"] or vals("x-fields") != ["id\tname"]:
+            return "a header value is trimmed at its ends only, whitespace inside it is the user's: `X-Signature:  t=1712  v1=52  57 ` reaches the server as %s, `X-Fields: id<TAB>name` as %s" % (vals("x-signature"), vals("x-fields"))
         if vals("authorization") != ["Bearer tok123"]:
             return "--authorization tok123 reaches the server as %s" % vals("authorization")
         return None
